@@ -163,4 +163,8 @@ def run(ctx):
     n_models = (400 if ctx.quick else 2000) * (3 if ctx.search else 1)
     for _ in range(n_models):
         a, o, t = gen_valid(ctx.rng, ctx.quick, empty_p=0.04)
+        if ctx.rng.random() < 0.15:
+            # the model is the OUTPUT of another operation (assume / reduce / negate / Not / Imply / a JSON, base64, pickle or
+            # deepcopy round trip, one or two of them) applied to a generated valid model
+            a, o, t = gen_derived(ctx.rng, ctx.quick); ctx.tags["derived-model-stream"] += 1
         do_case(ctx, {"ast": a})
